@@ -364,6 +364,13 @@ func handleReq(rq wproto.Req) (rp wproto.Rep) {
 				for i := range rq.Par {
 					rq.Par[i].JailIn = filepath.Join(parent, fmt.Sprintf("j%d", i))
 					rq.Par[i].RelJail = i == 1
+					for _, t := range rq.Par[i].OptSeq {
+						if t == "massive" || t == "mcancel" {
+							// (goroutines of a failed massive call may still be at work when the pair is over and the
+							// directory has been changed back: they would create directories relative to it)
+							rq.Par[i].RelJail = false
+						}
+					}
 				}
 			}
 		}
